@@ -114,6 +114,17 @@ def library_exception_result(exc: BaseException) -> "Result":
         last = tb
         tb = tb.tb_next
     fn = os.path.realpath(last.tb_frame.f_code.co_filename) if last is not None else ""
+    if isinstance(exc, MemoryError) and not fn.startswith(boot.SRC + os.sep):
+        # memory exhausted (the worker runs under an address-space cap): attribute it to the
+        # innermost library frame on the stack, wherever the allocation finally failed
+        tb = exc.__traceback__
+        lib = None
+        while tb is not None:
+            if os.path.realpath(tb.tb_frame.f_code.co_filename).startswith(boot.SRC + os.sep):
+                lib = tb
+            tb = tb.tb_next
+        if lib is not None:
+            last, fn = lib, os.path.realpath(lib.tb_frame.f_code.co_filename)
     if not fn.startswith(boot.SRC + os.sep):
         raise exc
     where = f"{os.path.relpath(fn, boot.SRC)}:{last.tb_frame.f_code.co_name}"
@@ -125,7 +136,7 @@ def library_exception_result(exc: BaseException) -> "Result":
                 "unexpected-exception",
                 f"{type(exc).__name__}@{where}",
                 "the operation completes, or fails in a way the property allows",
-                f"{type(exc).__name__}: {scrub(str(exc))[:160]} raised in {where}",
+                f"{type(exc).__name__}: {scrub(str(exc)[:300])[:160]} raised in {where}",
             )
         ],
         {"aborted": f"{type(exc).__name__}@{where}"},
